@@ -106,6 +106,18 @@ CHECKS: dict[str, dict[str, str]] = {
         "technique": "TLA+ BIP341 specification model-checked with TLC on small trees; recorded outputs/control blocks and altered proofs validated as traces",
         "design_ref": "DESIGN.md section 4 C12",
     },
+    "C17": {
+        "text": ("TLC model-checks: the merkle tree with a collision-free hash over every list of up to 5-6 leaves with repeats (a branch proves its leaf at its "
+                 "index and no other leaf or index, the padded tail is no position, two lists with one root imply a mutation flag); the Golomb-Rice set codec "
+                 "(decode o encode = id, one encoding per set); the compact-target codec on 43 exponents x 22 significands (inverse on canonical values, never "
+                 "rounds up, never writes the sign bit, monotone); the BIP152 relay machine with forced short-id collisions. Recorded from the code and recomputed "
+                 "by TLC (SHA256 and SipHash-2-4 inside the specification): merkle roots/flags with the real and a structural hash, branch roots and "
+                 "merkle_proof.verify under every tampering incl. a 64-byte-transaction inner node, header-root and BIP141 commitment checks on 14 block "
+                 "variants, BIP158 filters (incl. an engineered value collision), match for every member, decoding of damaged filters, target/bits/next_bits/"
+                 "work, short ids, reconstruct and fill against five kinds of pool under several nonces."),
+        "technique": "TLA+ specifications of merkle tree, Golomb-coded set, compact target and compact-block relay model-checked with TLC; recorded commitments validated as traces",
+        "design_ref": "DESIGN.md section 4 C17",
+    },
     "C18": {
         "text": ("TLC model-checks the change-or-fee decision (Accounting.Fund) over small parameters for conservation, rate paid on the final size, no dust "
                  "change, honest refusal, bounded overpayment and monotonicity. Recorded from the code and recomputed by TLC: size/weight/vsize of transactions "
